@@ -733,7 +733,7 @@ class TorControlProtocol(LineOnlyReceiver):
                     Failure(
                         TorDisconnectError(
                             text=("Tor unexpectedly disconnected while "
-                                  "running: {}".format(cmd.decode('ascii'))),
+                                  "running: {}".format(cmd.decode('utf-8', 'replace'))),
                             error=reason,
                         )
                     )
